@@ -198,8 +198,8 @@ def jobs(chk, tier):
     rnd = C.rng('c17')
     frac = 0.1 if tier == 'quick' else 0.3
     for r, g, cfg in T.records(chk, tier, INVS):
-        if r.get('reject'):
-            continue
+        if r.get('reject') or any(o.get('kind') == 'A' for o in r['input']):
+            continue            # (curve objects are addressed like wires; main() orders arcs before wires)
         yield (r, g, 'solve' if rnd.random() < frac else 'nosolve', sd)
 
 
